@@ -350,6 +350,57 @@ shard(lifecycle3, "e0", range(NE), [f"first_{x}" for x in _LABELS], globals())
 shard(reopen4, "e1", range(NE), [f"then_{x}" for x in _LABELS], globals())
 shard(lifecycle4, "e0", range(1, NE), [f"first_{x}" for x in _LABELS[1:]], globals())
 
+# ------------------------------------------------------------------------------------------------ specially-handled names
+from hippolyzer.lib.base.message.template_dict import DEFAULT_TEMPLATE_DICT  # noqa: E402
+from hippolyzer.lib.base.message.message_dot_xml import MessageDotXML  # noqa: E402
+
+# every message name handle_proxied_packet branches on, plus two it does not
+NAMED = ["UseCircuitCode", "AgentMovementComplete", "RegionHandshake", "CloseCircuit", "DisableSimulator", "AgentDataUpdate",
+         "CompletePingCheck", "ChatFromSimulator"]
+_MSG_XML = MessageDotXML()
+_NAMED_DESER = UDPMessageDeserializer()
+
+
+def named_message(name, pid, outgoing):
+    tmpl = DEFAULT_TEMPLATE_DICT[name]
+    blocks = [Block(b.name, fill_missing=True) for b in tmpl.blocks]
+    if name == "UseCircuitCode":
+        blocks = [Block("CircuitCode", Code=1234, SessionID=px.SESSION.id, ID=px.SESSION.agent_id)]
+    msg = Message(name, *blocks, packet_id=pid, direction=Direction.OUT if outgoing else Direction.IN)
+    # through the codec once so that defaults are what the wire carries
+    got = _NAMED_DESER.deserialize(SER.serialize(msg))     # (kept alive: messages hold only a weak reference to it)
+    out = Message(name, packet_id=pid, direction=msg.direction)
+    for bname, blist in got.blocks.items():
+        for b in blist:
+            out.add_block(Block(bname, **dict(b.items())))
+    return out
+
+
+@harness(pre=[f"0 <= mi < {len(NAMED)}", "p0 in (1, 70000)"], post="_", timeout=300,
+         note="every message name the proxy's packet handler treats specially (UseCircuitCode, AgentMovementComplete, "
+              "RegionHandshake, CloseCircuit, DisableSimulator, AgentDataUpdate) and two ordinary ones, in BOTH directions on the "
+              "main region's open circuit, template-default content, through the real UDP association and byte codec: delivered "
+              "to the right peer exactly once with equal content (inbound wrapped with the simulator's address), unless "
+              "message.xml bans the name over UDP inbound, in which case nothing is sent; a second ordinary datagram each way "
+              "is still delivered afterwards when the circuit is still open", covers=COVERS)
+def named_message_transparency(mi: int, outgoing: bool, p0: int) -> bool:
+    name = NAMED[small(mi, 0, len(NAMED) - 1)]
+    outgoing = True if outgoing else False
+    sock = fresh()
+    msg = named_message(name, p0, outgoing)
+    new = push(sock, msg, outgoing, px.SIM)
+    allowed = outgoing or _MSG_XML.validate_udp_msg(name)
+    dest = (px.SIM if outgoing else px.CLIENT) if allowed else None
+    if not check_delivery(dest, msg, new, outgoing, p0):
+        return False
+    if px.REGION.circuit is not None and px.REGION.circuit.is_alive:
+        for og in (True, False):
+            m2 = make_datagram(0, og, p0 + 1)[0]
+            if not check_delivery(px.SIM if og else px.CLIENT, m2, push(sock, m2, og, px.SIM), og, p0 + 1):
+                return False
+    return True
+
+
 EVIDENCE = {
     "bounds": "framing: any port, payload <= 4 bytes, any 4 header bytes + tail <= 8; routing: schedules of 2 datagrams over 4 "
               "sources x 6 kinds, two packet-id pairs, one session, two regions; circuit lifecycle: schedules of 3 events, and "
